@@ -67,6 +67,7 @@ class AsyncListener:
         "_query_handler",
         'data',
         'undone',
+        'heard',
         'last_time',
         'last_message',
         'transport',
@@ -82,6 +83,7 @@ class AsyncListener:
         self._query_handler = zc.query_handler
         self.data: Optional[bytes] = None
         self.undone = False
+        self.heard = False
         self.last_time: float = 0
         self.last_message: Optional[DNSIncoming] = None
         self.transport: Optional[_WrappedTransport] = None
@@ -139,8 +141,9 @@ class AsyncListener:
             )
         ):
             # Guard against duplicate packets
-            if self.last_message.is_query() and self._registry.has_entries:
-                # not answered again, but its questions were heard again
+            if self.last_message.is_query() and self.heard:
+                # not answered again, but its questions were heard again (if they
+                # were heard at all: nothing was registered then, or is now)
                 self._query_handler.async_remember_query(self.last_message, now, True)
             if debug:
                 log.debug(
@@ -173,6 +176,7 @@ class AsyncListener:
         self.last_time = now
         self.last_message = msg
         self.undone = False
+        self.heard = False
         # Duplicate suppression is only sound for back to back copies: a response
         # received on one socket can undo the effect of the response another
         # socket of this instance saw last, so a later copy of that one (a
@@ -220,6 +224,7 @@ class AsyncListener:
 
         if TYPE_CHECKING:
             assert self.transport is not None
+        self.heard = True
         self.handle_query_or_defer(msg, addr, port, self.transport, v6_flow_scope)
 
     def handle_query_or_defer(
